@@ -126,6 +126,13 @@ def valid(sc):
         return False
     if "stream_flags" in sc and "nolen" in sc["stream_flags"] and "after" in sc:
         return False      # a LEN-less STREAM frame extends to the end of the packet
+    n = sc.get("ncid")
+    if n:
+        # RFC 9000 5.1.1: an endpoint that uses a zero-length connection ID cannot issue new connection IDs
+        if sc.get("scid_len") == 0:
+            return False
+        if sc.get("ccid_len") == 0 and "c" in n[1:]:
+            return False
     if sc.get("offered") == "chacha_first" and sc.get("suite") == 0x1303:
         return False      # identical to the default order
     return True
